@@ -7,7 +7,7 @@ from ..proj import proj, ATTRS
 from ..core import time_limit
 from . import c15
 
-NONASCII = ["Zea-µ", "稻米", "Ñandú", "ß-line", "Ωmega", "naïve", "Ærø", "çedilla"]
+NONASCII = ["Zea-µ ", " 稻米", "Ñan dú", "ß-line  ", "Ωmega", "naïve\t", "Ærø", "çedilla"]      # non-ASCII labels, some with leading / inner / trailing blanks
 
 
 def imp(path, name):
